@@ -3,6 +3,7 @@ package transport
 import (
 	"encoding/json"
 	"fmt"
+	"unicode/utf8"
 
 	"github.com/aptpod/iscp-go/errors"
 	"github.com/aptpod/iscp-go/transport/compress"
@@ -96,6 +97,9 @@ func (p *NegotiationParams) UnmarshalKeyValues(keyvals map[string]string) error 
 	// 文字列のbool値を適切に変換するための中間マップ
 	converted := make(map[string]interface{})
 	for k, v := range keyvals {
+		if !utf8.ValidString(k) || !utf8.ValidString(v) {
+			return fmt.Errorf("key and value must be UTF-8 encoded: %q", k)
+		}
 		if k == "reconnect" {
 			switch v {
 			case "true":
